@@ -47,12 +47,17 @@
                                                                        C20_query_metaProc_sublist (meta procedure level)
   … hence no answered entry carries a publisher key (C12)              C20_answer_no_identity
   `topic` filter, read as the property text reads it ("entries of
-    publications to that topic"): TRUE for pattern subscriptions,
-    FALSE for exact-match subscriptions — their entries store no
-    `details.topic`, so get_events(sub, topic = its own topic)
-    answers NOTHING (Go: broker.go:1272-1275 with prepareEvent:787)    C20_topic_filter_full (def), C20_topic_filter_full_fails,
+    publications to that topic"): TRUE for every subscription
+    (Go fix 30f858f: the entries of an exact-match subscription
+    store no `details.topic`; their topic is the subscription's,
+    which the handler hands to the scan as `q.subTopic`): for an
+    exact-match subscription get_events(sub, topic = its own topic)
+    answers what it answers without `topic`, any other topic nothing    C20_topic_filter_full (def), C20_topic_filter_full_holds,
                                                                        C20_topic_filter_pattern, C20_topic_filter_exact,
-                                                                       C20_topic_filter_exact_scan, C20_topic_filter_exact_metaProc
+                                                                       C20_topic_filter_exact_scan, C20_topic_filter_exact_metaProc,
+                                                                       C20_topic_filter_scan (list level, any subscription)
+  the caller cannot set `subTopic`: the parser leaves it empty,
+    the handler fills in the topic of the subscription queried         C20_histQuery_subTopic, C20_query_metaProc
   argument parsing: what each keyword argument is parsed to; the
     parser fails exactly on the listed malformations; well-formed
     arguments always parse                                             C20_histQuery_spec, C20_histQuery_none_iff, C20_histQuery_total
@@ -72,6 +77,8 @@
     realm state (N > 0 follows from the configuration check)           C20_retention_realm
   the four publication-bound clauses for every store of a reachable
     realm, no side condition left                                      C20_query_publication_realm
+  the topic filter for every configured store of a reachable realm,
+    any policy, no side condition left                                 C20_topic_filter_realm
   no get_events answer in a reachable realm carries a publisher key    C20_answer_no_identity_realm
 
   What the pipeline of `C20_query_scan` says about COMBINED bounds (this is what the code does):
@@ -251,14 +258,15 @@ example : ∃ q : HistQuery, (q.fromT = none ∧ q.afterT = none ∧ q.beforeT =
 
 /-- Time bounds and topic, no publication bounds: exactly the entries (in store order, each once)
     with `from_time ≤ t`, `after_time < t`, `t < before_time`, `t ≤ until_time` for the bounds that
-    are present, and — when `topic` is given — a stored `details.topic` equal to it. -/
+    are present, and — when `topic` is given — a publication topic equal to it (`topicIs q.subTopic`: the
+    stored `details.topic`, or, for an entry without one, the topic `q.subTopic` of the subscription). -/
 theorem C20_query_time_topic (q : HistQuery) (es : List HistEntry)
     (hP : q.fromPub = 0 ∧ q.afterPub = 0 ∧ q.beforePub = 0 ∧ q.untilPub = 0) :
     histScan q es q.fromPub q.afterPub false =
       es.filter (fun e =>
         (q.fromT.all (fun t => t ≤ e.time) && q.afterT.all (fun t => t < e.time) &&
          q.beforeT.all (fun t => e.time < t) && q.untilT.all (fun t => e.time ≤ t)) &&
-        (q.topic == "" || topicIs e q.topic)) := by
+        (q.topic == "" || topicIs q.subTopic e q.topic)) := by
   rw [C20_query_scan]
   unfold scanSpec
   rw [hP.1, hP.2.1, hP.2.2.1, hP.2.2.2, fromStage_zero, afterStage_zero, beforeStage_zero, untilStage_zero,
@@ -361,16 +369,31 @@ example : ∃ (es pre post : List HistEntry) (f : HistEntry), es = pre ++ f :: p
     retainedEntry exS0 3 (exPub 12 []), by rfl, rfl, by decide, by simp, by simp⟩
 
 /-- The meta procedure `wamp.subscription.get_events`, called with a valid subscription id and valid
-    keyword arguments on a subscription that exists and has a store, answers YIELD with exactly
-    `histAnswer q store` (each entry rendered with its subscription id, publication id, details,
-    arguments and keyword arguments) and does not change the realm. -/
+    keyword arguments on a subscription `s` that exists and has a store, answers YIELD with exactly
+    `histAnswer q' store` — where `q'` is the parsed query `q` with `subTopic` set to the topic of `s` —
+    (each entry rendered with its subscription id, publication id, details, arguments and keyword
+    arguments) and does not change the realm. -/
 theorem C20_query_metaProc (r : Realm) (req : Nat) (details : Dict) (a : WVal) (rest : List WVal) (kw : Dict)
-    (id : Nat) (q : HistQuery) (h : Hist) (ha : a.asID = some id) (hq : histQuery? kw = some q)
-    (hsub : (r.broker.findId id).isSome = true) (hh : r.broker.hist.find? (fun h => h.sub == id) = some h) :
+    (id : Nat) (q : HistQuery) (h : Hist) (s : Sub) (ha : a.asID = some id) (hq : histQuery? kw = some q)
+    (hsub : r.broker.findId id = some s) (hh : r.broker.hist.find? (fun h => h.sub == id) = some h) :
     metaProc r MetaProcEventHistory req details (a :: rest) kw =
-      (mYield req ((histAnswer q h.entries).map histEntryVal)
-        [("is_limit_reached", .bool (h.entries.length ≥ h.limit))], r) :=
-  metaProc_history r req details a rest kw id q h ha hq hsub hh
+      (mYield req ((histAnswer { q with subTopic := s.topic } h.entries).map histEntryVal)
+        [("is_limit_reached", .bool (h.entries.length ≥ h.limit))], r) := by
+  rw [metaProc_history r req details a rest kw id q h ha hq (by rw [hsub]; rfl) hh]
+  unfold subQuery
+  rw [hsub]
+  rfl
+
+/-- the caller has no say in `subTopic`: whatever the keyword arguments, the parser leaves it empty -/
+theorem C20_histQuery_subTopic (kw : Dict) (q : HistQuery) (h : histQuery? kw = some q) : q.subTopic = "" := by
+  rw [Nexus.L2.WpA.histQuery?_eq] at h
+  split at h
+  · split at h
+    · split at h
+      · cases h
+      · cases h; rfl
+    · cases h; rfl
+  · cases h
 
 example : histQuery? [("limit", .int 2), ("reverse", .bool true)] =
     some { limit := 2, reverse := true } := by rfl
@@ -439,19 +462,19 @@ theorem C20_answer_no_identity (q : HistQuery) (es : List HistEntry)
     (read backwards when `reverse` was requested) is a sub-list of `h.entries`; in particular every
     value in the answer is the rendering of an entry of THAT subscription's store. -/
 theorem C20_query_metaProc_sublist (r : Realm) (req : Nat) (details : Dict) (a : WVal) (rest : List WVal) (kw : Dict)
-    (id : Nat) (q : HistQuery) (h : Hist) (ha : a.asID = some id) (hq : histQuery? kw = some q)
-    (hsub : (r.broker.findId id).isSome = true) (hh : r.broker.hist.find? (fun h => h.sub == id) = some h) :
+    (id : Nat) (q : HistQuery) (h : Hist) (s : Sub) (ha : a.asID = some id) (hq : histQuery? kw = some q)
+    (hsub : r.broker.findId id = some s) (hh : r.broker.hist.find? (fun h => h.sub == id) = some h) :
     ∃ ans : List HistEntry,
       metaProc r MetaProcEventHistory req details (a :: rest) kw =
         (mYield req (ans.map histEntryVal) [("is_limit_reached", .bool (h.entries.length ≥ h.limit))], r) ∧
       (if q.reverse then ans.reverse else ans).Sublist h.entries ∧
       (∀ v ∈ ans.map histEntryVal, ∃ e ∈ h.entries, v = histEntryVal e) ∧
       h ∈ r.broker.hist ∧ h.sub = id :=
-  ⟨histAnswer q h.entries, C20_query_metaProc r req details a rest kw id q h ha hq hsub hh,
-    C20_answer_sublist q h.entries,
+  ⟨histAnswer { q with subTopic := s.topic } h.entries, C20_query_metaProc r req details a rest kw id q h s ha hq hsub hh,
+    C20_answer_sublist { q with subTopic := s.topic } h.entries,
     fun v hv => by
       obtain ⟨e, he, rfl⟩ := List.mem_map.mp hv
-      exact ⟨e, C20_answer_mem q h.entries e he, rfl⟩,
+      exact ⟨e, C20_answer_mem { q with subTopic := s.topic } h.entries e he, rfl⟩,
     List.mem_of_find?_eq_some hh, by simpa using List.find?_some hh⟩
 
 /-- a realm whose broker went through the example history -/
@@ -460,14 +483,14 @@ def exRealm : Realm := { broker := exB0.run exSteps }
 /-- by `C20_retention`: subscription 1 of `exRealm` exists and its store is found, with limit 2 and
     the last two retained publications (12 and 13) -/
 theorem exRealm_store : ∃ h, exRealm.broker.hist.find? (fun h => h.sub == 1) = some h ∧ h.limit = 2 ∧
-    h.entries = lastN 2 (retained exS0 exSteps) ∧ (exRealm.broker.findId 1).isSome = true := by
+    h.entries = lastN 2 (retained exS0 exSteps) ∧ ∃ s, exRealm.broker.findId 1 = some s ∧ s.topic = "t" := by
   have hh : exH0 ∈ (({ strict := false, allowDisclose := false } : Broker).preInit exCfg).hist := by
     show exH0 ∈ exB0.hist
     rw [exB0_hist]; simp
   have hs : exS0 ∈ (({ strict := false, allowDisclose := false } : Broker).preInit exCfg).subs := by
     show exS0 ∈ exB0.subs
     rw [exB0_subs]; simp
-  obtain ⟨h, hm, e1, e2, e3, huniq, s, hsm, e4, _⟩ :=
+  obtain ⟨h, hm, e1, e2, e3, huniq, s, hsm, e4, e5, _⟩ :=
     C20_retention false false exCfg exSteps hh hs rfl (by decide)
   have hinv : BrokerInv exRealm.broker := (BrokerInv.preInit false false exCfg).run exSteps
   refine ⟨h, ?_, e2, e3, ?_⟩
@@ -482,81 +505,171 @@ theorem exRealm_store : ∃ h, exRealm.broker.hist.find? (fun h => h.sub == 1) =
       rw [huniq h' h1 (show h'.sub = 1 by simpa using h2)]
   · have := findId_of_mem hinv.ids_nodup hsm
     rw [e4] at this
-    show (exRealm.broker.findId 1).isSome = true
     rw [show exS0.id = 1 from rfl] at this
-    rw [this]; rfl
+    exact ⟨s, this, e5⟩
 
 /-- non-vacuity: the query `limit = 1, reverse` on subscription 1 of `exRealm` is well-formed, finds
     the store (entries 12, 13) and is answered with the single entry 13. -/
 example : (WVal.int 1).asID = some 1 ∧
     histQuery? [("limit", .int 1), ("reverse", .bool true)] = some { limit := 1, reverse := true } ∧
     (∃ h, exRealm.broker.hist.find? (fun h => h.sub == 1) = some h ∧ h.entries.map (·.pub) = [12, 13] ∧
-      (exRealm.broker.findId 1).isSome = true) ∧
-    (histAnswer { limit := 1, reverse := true }
+      ∃ s, exRealm.broker.findId 1 = some s ∧ s.topic = "t") ∧
+    (histAnswer { limit := 1, reverse := true, subTopic := "t" }
       (lastN 2 (retained exS0 exSteps))).map (·.pub) = [13] := by
   obtain ⟨h, h1, _, h3, h4⟩ := exRealm_store
   exact ⟨by decide, by rfl, ⟨h, h1, by rw [h3]; rfl, h4⟩, by rfl⟩
 
-/-! ### the `topic` filter (work package A, audit C20-G4) -/
+/-! ### the `topic` filter (work package A, audit C20-G4; Go fix 30f858f) -/
+
+/-- an exact-match subscription matches exactly its own topic -/
+theorem exact_matchesTopic {s : Sub} (hp : s.isPattern = false) (t : String) :
+    s.matchesTopic t = true ↔ s.topic = t := by
+  unfold Sub.isPattern at hp
+  unfold Sub.matchesTopic
+  cases hk : s.kind <;> simp [hk] at hp ⊢
 
 /-- FULL statement of "the topic filter selects exactly the entries it describes", read as the
-    property text reads it: an entry retained for publication `p` passes the filter `topic = t` iff
-    `p` was published to `t`. -/
+    property text reads it: an entry retained for publication `p` in the store of subscription `s`
+    passes the filter `topic = t` of a query on `s` (the handler sets `subTopic := s.topic`) iff `p` was
+    published to `t`. -/
 def C20_topic_filter_full : Prop :=
   ∀ (s : Sub) (now : Nat) (p : Publication) (t : String),
     p.baseDetails.get? "topic" = none → s.matchesTopic p.topic = true →
-    (topicIs (retainedEntry s now p) t = true ↔ p.topic = t)
+    (topicIs s.topic (retainedEntry s now p) t = true ↔ p.topic = t)
 
-/-- for a pattern-based subscription (prefix, wildcard) the full statement holds -/
+/-- for a pattern-based subscription (prefix, wildcard) the stored `details.topic` decides, whatever
+    the subscription's own topic (a pattern) is -/
 theorem C20_topic_filter_pattern (s : Sub) (now : Nat) (p : Publication) (t : String)
-    (hp : s.isPattern = true) :
-    topicIs (retainedEntry s now p) t = true ↔ p.topic = t := by
+    (hp : s.isPattern = true) (sub : String) :
+    topicIs sub (retainedEntry s now p) t = true ↔ p.topic = t := by
   unfold topicIs
   rw [retainedEntry_topic, hp]
   simp
 
-/-- for an EXACT-match subscription no entry passes any topic filter: the stored details carry no
-    `topic` key (given that the payload-passthru details have none, as for every publication the
-    realm hands over). -/
+/-- for an EXACT-match subscription the stored details carry no `topic` key (given that the
+    payload-passthru details have none, as for every publication the realm hands over), and an entry
+    passes the filter `topic = t` iff `t` is the subscription's own topic: the subscription's own topic
+    selects every entry, any other topic none. -/
 theorem C20_topic_filter_exact (s : Sub) (now : Nat) (p : Publication) (t : String)
     (hp : s.isPattern = false) (hbase : p.baseDetails.get? "topic" = none) :
-    topicIs (retainedEntry s now p) t = false := by
+    topicIs s.topic (retainedEntry s now p) t = (s.topic == t) := by
   unfold topicIs
   rw [retainedEntry_topic, hp]
-  simp [hbase]
+  simp only [Bool.false_eq_true, if_false, hbase]
 
-/-- The full statement is FALSE: the exact-match subscription `exS0` on "t" retains publication 10
-    (published to "t"), but that entry does not pass the filter `topic = "t"`. -/
-theorem C20_topic_filter_full_fails : ¬ C20_topic_filter_full := by
-  intro h
-  have h1 := (h exS0 1 (exPub 10 []) "t" (by rfl) (by decide)).mpr (by rfl)
-  rw [C20_topic_filter_exact exS0 1 (exPub 10 []) "t" (by decide) (by rfl)] at h1
-  exact Bool.noConfusion h1
+/-- The full statement HOLDS (before the Go fix 30f858f it was false for exact-match subscriptions:
+    the former witness `C20_topic_filter_full_fails`). -/
+theorem C20_topic_filter_full_holds : C20_topic_filter_full := by
+  intro s now p t hbase hm
+  cases hp : s.isPattern
+  · rw [C20_topic_filter_exact s now p t hp hbase]
+    have := (exact_matchesTopic hp p.topic).mp hm
+    rw [← this]
+    simp
+  · exact C20_topic_filter_pattern s now p t hp s.topic
 
-/-- list level: on the store of an exact-match subscription whose entries are retained entries
-    (`C20_retention`) a query with a `topic` argument selects nothing, whatever the other bounds. -/
-theorem C20_topic_filter_exact_scan (q : HistQuery) (s : Sub) (es : List HistEntry)
-    (hs : s.isPattern = false) (ht : q.topic ≠ "")
-    (hes : ∀ e ∈ es, ∃ now p, p.baseDetails.get? "topic" = none ∧ e = retainedEntry s now p) :
-    histAnswer q es = [] := by
-  have hscan : scanSpec q es = [] := by
-    unfold scanSpec
-    rw [List.filter_eq_nil_iff]
+/-- non-vacuity: the former counterexample — the exact-match subscription `exS0` on "t" retains
+    publication 10 (published to "t"); its entry passes `topic = "t"` and not `topic = "u"` -/
+example : exS0.isPattern = false ∧ (exPub 10 []).baseDetails.get? "topic" = none ∧
+    exS0.matchesTopic (exPub 10 []).topic = true ∧
+    topicIs exS0.topic (retainedEntry exS0 1 (exPub 10 [])) "t" = true ∧
+    topicIs exS0.topic (retainedEntry exS0 1 (exPub 10 [])) "u" = false := by
+  refine ⟨by decide, by rfl, by decide, by rfl, by rfl⟩
+
+/-- list level, ANY subscription: on a store whose entries are retained entries of subscription `s`
+    (`C20_retention`), queried with `subTopic = s.topic` (what the handler does), the scan selects,
+    after the time and publication bounds, exactly the entries retained for publications to `q.topic`. -/
+theorem C20_topic_filter_scan (q : HistQuery) (s : Sub) (steps : List BStep) (n : Nat)
+    (hq : q.subTopic = s.topic) (ht : q.topic ≠ "")
+    (hbase : ∀ sess now p, BStep.publish sess now p ∈ steps → p.baseDetails.get? "topic" = none) :
+    ∀ e ∈ lastN n (retained s steps), topicOk q e = true ↔
+      ∃ sess now p, BStep.publish sess now p ∈ steps ∧ s.matchesTopic p.topic = true ∧
+        e = retainedEntry s now p ∧ p.topic = q.topic := by
+  have key : ∀ e ∈ retained s steps, ∃ sess now p, BStep.publish sess now p ∈ steps ∧
+      s.matchesTopic p.topic = true ∧ e = retainedEntry s now p := by
     intro e he
-    have hm : e ∈ es :=
-      ((untilStage_sublist _ _).trans ((beforeStage_sublist _ _).trans
-        ((afterStage_sublist _ _).trans ((fromStage_sublist _ _).trans List.filter_sublist)))).subset he
-    obtain ⟨now, p, hb, rfl⟩ := hes e hm
-    unfold topicOk
-    rw [C20_topic_filter_exact s now p q.topic hs hb]
-    simp [ht]
-  rw [C20_query_answer, hscan]
-  simp [lastN]
+    induction steps with
+    | nil => cases he
+    | cons st rest ih =>
+      have ih' := fun h => ih (fun sess now p hm => hbase sess now p (List.mem_cons_of_mem _ hm)) h
+      cases st with
+      | publish sess now p =>
+        unfold retained at he
+        split at he
+        · rename_i hc
+          rcases List.mem_cons.mp he with rfl | he
+          · simp only [Bool.and_eq_true] at hc
+            exact ⟨sess, now, p, List.mem_cons_self .., hc.1.1, rfl⟩
+          · obtain ⟨a, b, c, h1, h2, h3⟩ := ih' he
+            exact ⟨a, b, c, List.mem_cons_of_mem _ h1, h2, h3⟩
+        · obtain ⟨a, b, c, h1, h2, h3⟩ := ih' he
+          exact ⟨a, b, c, List.mem_cons_of_mem _ h1, h2, h3⟩
+      | subscribe a b c d e' =>
+        obtain ⟨a', b', c', h1, h2, h3⟩ := ih' (by unfold retained at he; exact he)
+        exact ⟨a', b', c', List.mem_cons_of_mem _ h1, h2, h3⟩
+      | unsubscribe a b c d =>
+        obtain ⟨a', b', c', h1, h2, h3⟩ := ih' (by unfold retained at he; exact he)
+        exact ⟨a', b', c', List.mem_cons_of_mem _ h1, h2, h3⟩
+      | removeSession a b =>
+        obtain ⟨a', b', c', h1, h2, h3⟩ := ih' (by unfold retained at he; exact he)
+        exact ⟨a', b', c', List.mem_cons_of_mem _ h1, h2, h3⟩
+  intro e he
+  obtain ⟨sess, now, p, hm, hmt, rfl⟩ := key e ((List.drop_sublist _ _).subset he)
+  have hb := hbase sess now p hm
+  unfold topicOk
+  rw [hq]
+  have hne : (q.topic == "") = false := by simpa using ht
+  rw [hne, Bool.false_or]
+  constructor
+  · intro h; exact ⟨sess, now, p, hm, hmt, rfl, (C20_topic_filter_full_holds s now p q.topic hb hmt).mp h⟩
+  · rintro ⟨sess', now', p', hm', hmt', he', ht'⟩
+    rw [he']
+    exact (C20_topic_filter_full_holds s now' p' q.topic (hbase sess' now' p' hm') hmt').mpr ht'
 
-example : exS0.isPattern = false ∧ ({ topic := "t" } : HistQuery).topic ≠ "" ∧
+/-- the stages before the topic filter do not look at `topic` -/
+theorem scanSpec_topic_congr (q : HistQuery) (es : List HistEntry) :
+    scanSpec q es = (scanSpec { q with topic := "" } es).filter (topicOk q) := by
+  unfold scanSpec
+  rw [filter_topicOk_none { q with topic := "" } rfl]
+  rfl
+
+/-- list level, EXACT-match subscription: on the store of an exact-match subscription whose entries are
+    retained entries (`C20_retention`), queried with `subTopic = s.topic`: the subscription's own topic
+    selects every entry — the answer is the one without the `topic` argument, whatever the other bounds —
+    and any other topic selects none. -/
+theorem C20_topic_filter_exact_scan (q : HistQuery) (s : Sub) (es : List HistEntry)
+    (hs : s.isPattern = false) (hq : q.subTopic = s.topic)
+    (hes : ∀ e ∈ es, ∃ now p, p.baseDetails.get? "topic" = none ∧ e = retainedEntry s now p) :
+    (q.topic = s.topic → histAnswer q es = histAnswer { q with topic := "" } es) ∧
+    (q.topic ≠ "" → q.topic ≠ s.topic → histAnswer q es = []) := by
+  have hmem : ∀ e ∈ scanSpec { q with topic := "" } es, e ∈ es := fun e he => (C20_scan_sublist _ es).subset he
+  have hok : ∀ e ∈ es, topicOk q e = (q.topic == "" || s.topic == q.topic) := by
+    intro e he
+    obtain ⟨now, p, hb, rfl⟩ := hes e he
+    unfold topicOk
+    rw [hq, C20_topic_filter_exact s now p q.topic hs hb]
+  constructor
+  · intro ht
+    have hscan : scanSpec q es = scanSpec { q with topic := "" } es := by
+      rw [scanSpec_topic_congr, List.filter_eq_self]
+      intro e he
+      rw [hok e (hmem e he), ht]; simp
+    rw [C20_query_answer, C20_query_answer, hscan]
+  · intro ht hne
+    have hscan : scanSpec q es = [] := by
+      rw [scanSpec_topic_congr, List.filter_eq_nil_iff]
+      intro e he
+      rw [hok e (hmem e he)]
+      have h1 : (q.topic == "") = false := by simpa using ht
+      have h2 : (s.topic == q.topic) = false := by simpa using fun e => hne e.symm
+      rw [h1, h2]; simp
+    rw [C20_query_answer, hscan]
+    simp [lastN]
+
+example : exS0.isPattern = false ∧ ({ topic := "t", subTopic := "t" } : HistQuery).subTopic = exS0.topic ∧
     (∀ e ∈ lastN 2 (retained exS0 exSteps), ∃ now p, p.baseDetails.get? "topic" = none ∧ e = retainedEntry exS0 now p) ∧
     lastN 2 (retained exS0 exSteps) ≠ [] := by
-  refine ⟨by decide, by decide, ?_, by decide⟩
+  refine ⟨by decide, rfl, ?_, by decide⟩
   intro e he
   have : e = retainedEntry exS0 3 (exPub 12 []) ∨ e = retainedEntry exS0 4 (exPub 13 []) := by
     have h2 : lastN 2 (retained exS0 exSteps) = [retainedEntry exS0 3 (exPub 12 []), retainedEntry exS0 4 (exPub 13 [])] := by rfl
@@ -567,25 +680,27 @@ example : exS0.isPattern = false ∧ ({ topic := "t" } : HistQuery).topic ≠ ""
 
 /-- Concrete, at the level of the meta procedure: the configuration `exCfg` (history of limit 2 on
     the exact topic "t"), publications 10, 12, 13 to "t" retained (store = 12, 13); the call
-    `wamp.subscription.get_events [1] {topic: "t"}` is answered with the EMPTY list, although every
-    stored entry was published to "t"; without the `topic` argument both entries are answered. -/
+    `wamp.subscription.get_events [1] {topic: "t"}` is answered with BOTH stored entries, exactly as
+    the call without the `topic` argument; `{topic: "u"}` is answered with the empty list. -/
 theorem C20_topic_filter_exact_metaProc (req : Nat) (details : Dict) :
-    metaProc exRealm MetaProcEventHistory req details [.int 1] [("topic", .str "t")] =
-      (mYield req [] [("is_limit_reached", .bool true)], exRealm) ∧
-    (∃ h, exRealm.broker.hist.find? (fun h => h.sub == 1) = some h ∧ h.entries.map (·.pub) = [12, 13] ∧
-      ∃ q, histQuery? [] = some q ∧
-        metaProc exRealm MetaProcEventHistory req details [.int 1] [] =
-          (mYield req (h.entries.map histEntryVal) [("is_limit_reached", .bool true)], exRealm)) := by
-  obtain ⟨h, hh, hl, he, hs⟩ := exRealm_store
+    ∃ h, exRealm.broker.hist.find? (fun h => h.sub == 1) = some h ∧ h.entries.map (·.pub) = [12, 13] ∧
+      metaProc exRealm MetaProcEventHistory req details [.int 1] [("topic", .str "t")] =
+        (mYield req (h.entries.map histEntryVal) [("is_limit_reached", .bool true)], exRealm) ∧
+      metaProc exRealm MetaProcEventHistory req details [.int 1] [] =
+        (mYield req (h.entries.map histEntryVal) [("is_limit_reached", .bool true)], exRealm) ∧
+      metaProc exRealm MetaProcEventHistory req details [.int 1] [("topic", .str "u")] =
+        (mYield req [] [("is_limit_reached", .bool true)], exRealm) := by
+  obtain ⟨h, hh, hl, he, s, hs, hst⟩ := exRealm_store
   have hlim : decide (h.entries.length ≥ h.limit) = true := by rw [he, hl]; rfl
-  constructor
-  · rw [C20_query_metaProc exRealm req details (.int 1) [] [("topic", .str "t")] 1 { topic := "t" } h
-      (by decide) (by rfl) hs hh, hlim, he]
+  refine ⟨h, hh, by rw [he]; rfl, ?_, ?_, ?_⟩
+  · rw [C20_query_metaProc exRealm req details (.int 1) [] [("topic", .str "t")] 1 { topic := "t" } h s
+      (by decide) (by rfl) hs hh, hlim, he, hst]
     rfl
-  · refine ⟨h, hh, by rw [he]; rfl, {}, by rfl, ?_⟩
-    rw [C20_query_metaProc exRealm req details (.int 1) [] [] 1 {} h (by decide) (by rfl) hs hh, hlim, he]
+  · rw [C20_query_metaProc exRealm req details (.int 1) [] [] 1 {} h s (by decide) (by rfl) hs hh, hlim, he, hst]
     rfl
-
+  · rw [C20_query_metaProc exRealm req details (.int 1) [] [("topic", .str "u")] 1 { topic := "u" } h s
+      (by decide) (by rfl) hs hh, hlim, he, hst]
+    rfl
 /-! ### argument parsing of get_events (work package A, audit C20-G6) -/
 
 open Nexus.L2.WpA (timeBound limRaw reverseArg timeArg pubArg histQuery?_eq)
@@ -826,6 +941,36 @@ theorem C20_store_pubs_nodup {cfg : Config} {r : Realm} (h : Realm.Reachable cfg
   obtain ⟨h1, h2⟩ := WpA.store_pubs_fresh h st hst
   exact ⟨WpA.pairwise_lt_nodup h1, h1, h2⟩
 
+/-- retention for a given run of broker steps leading to the broker of a reachable realm -/
+theorem retention_of_run {cfg : Config} {r : Realm} (h : Realm.Reachable cfg r) (steps : List BStep)
+    (hb : r.broker =
+      (({ strict := cfg.strict, allowDisclose := cfg.allowDisclose } : Broker).preInit cfg.history).run steps)
+    (pre post : List (String × String × Nat)) (topic m : String) (limit : Nat)
+    (hcfg : cfg.history = pre ++ (topic, m, limit) :: post)
+    (hlast : ∀ c ∈ post, ¬(c.1 = topic ∧ matchKind c.2.1 = matchKind m)) :
+    0 < limit ∧
+      ∃ st ∈ r.broker.hist, ∃ s ∈ r.broker.subs,
+        s.id = st.sub ∧ s.topic = topic ∧ s.kind = matchKind m ∧ st.limit = limit ∧
+        st.entries = lastN limit (retained s steps) ∧
+        (∀ st' ∈ r.broker.hist, st'.sub = st.sub → st' = st) := by
+  obtain ⟨r0, h0⟩ := WpA.reachable_created h
+  have hpos : 0 < limit := by
+    have := (WpA.create_historyOk h0 (topic, m, limit) (by rw [hcfg]; simp)).2
+    exact this
+  refine ⟨hpos, ?_⟩
+  obtain ⟨h00, hh0, s0, hs0, e1, e2, _, e4, e5⟩ :=
+    C20_configured cfg.strict cfg.allowDisclose pre post topic m limit hlast
+  rw [← hcfg] at hh0 hs0
+  obtain ⟨st, hst, f1, f2, f3, f4, s, hs, g1, g2, g3⟩ :=
+    C20_retention cfg.strict cfg.allowDisclose cfg.history steps hh0 hs0 e1 (by rw [e2]; exact hpos)
+  rw [← hb] at hst hs f4
+  refine ⟨st, hst, s, hs, by rw [g1, e1, f1], g2.trans e4, ?_, f2.trans e2, ?_, ?_⟩
+  · have : s.kind = s0.kind := by unfold Sub.kind; rw [g3]
+    rw [this, e5]
+  · rw [f3, e2, retained_congr g1 g2 g3]
+  · intro st' hst' he
+    exact f4 st' hst' (he.trans f1)
+
 /-- Retention for reachable realms.  If `(topic, m, limit)` is an entry of the realm's history
     configuration not overridden by a later entry for the same (topic, policy), then in EVERY reachable
     realm state: the broker is the run of some steps from the initial broker; the limit is positive;
@@ -843,24 +988,36 @@ theorem C20_retention_realm {cfg : Config} {r : Realm} (h : Realm.Reachable cfg 
         s.id = st.sub ∧ s.topic = topic ∧ s.kind = matchKind m ∧ st.limit = limit ∧
         st.entries = lastN limit (retained s steps) ∧
         (∀ st' ∈ r.broker.hist, st'.sub = st.sub → st' = st) := by
-  obtain ⟨r0, h0⟩ := WpA.reachable_created h
-  have hpos : 0 < limit := by
-    have := (WpA.create_historyOk h0 (topic, m, limit) (by rw [hcfg]; simp)).2
-    exact this
   obtain ⟨steps, hb, _⟩ := WpA.reachable_run h
-  refine ⟨hpos, steps, hb, ?_⟩
-  obtain ⟨h00, hh0, s0, hs0, e1, e2, _, e4, e5⟩ :=
-    C20_configured cfg.strict cfg.allowDisclose pre post topic m limit hlast
-  rw [← hcfg] at hh0 hs0
-  obtain ⟨st, hst, f1, f2, f3, f4, s, hs, g1, g2, g3⟩ :=
-    C20_retention cfg.strict cfg.allowDisclose cfg.history steps hh0 hs0 e1 (by rw [e2]; exact hpos)
-  rw [← hb] at hst hs f4
-  refine ⟨st, hst, s, hs, by rw [g1, e1, f1], g2.trans e4, ?_, f2.trans e2, ?_, ?_⟩
-  · have : s.kind = s0.kind := by unfold Sub.kind; rw [g3]
-    rw [this, e5]
-  · rw [f3, e2, retained_congr g1 g2 g3]
-  · intro st' hst' he
-    exact f4 st' hst' (he.trans f1)
+  obtain ⟨hpos, rest⟩ := retention_of_run h steps hb pre post topic m limit hcfg hlast
+  exact ⟨hpos, steps, hb, rest⟩
+
+/-- THE TOPIC FILTER IN A REACHABLE REALM, for a configured (topic, policy, limit) of ANY policy (exact,
+    prefix, wildcard): the subscription `s` exists and is the one `get_events` finds under the store's id
+    (so the handler runs the scan with `subTopic := s.topic`), and for every query with a `topic`
+    argument an entry of the store passes the topic filter iff it was retained for a publication to
+    exactly that topic.  No side condition: the publications the realm hands the broker carry no `topic`
+    in their payload-passthru details (`C20_reachable_run`). -/
+theorem C20_topic_filter_realm {cfg : Config} {r : Realm} (h : Realm.Reachable cfg r)
+    (pre post : List (String × String × Nat)) (topic m : String) (limit : Nat)
+    (hcfg : cfg.history = pre ++ (topic, m, limit) :: post)
+    (hlast : ∀ c ∈ post, ¬(c.1 = topic ∧ matchKind c.2.1 = matchKind m)) :
+    ∃ steps, r.broker =
+        (({ strict := cfg.strict, allowDisclose := cfg.allowDisclose } : Broker).preInit cfg.history).run steps ∧
+      ∃ st ∈ r.broker.hist, ∃ s ∈ r.broker.subs,
+        s.topic = topic ∧ s.kind = matchKind m ∧ r.broker.findId st.sub = some s ∧
+        ∀ q : HistQuery, q.topic ≠ "" → ∀ e ∈ st.entries,
+          (topicOk { q with subTopic := s.topic } e = true ↔
+            ∃ sess now p, BStep.publish sess now p ∈ steps ∧ s.matchesTopic p.topic = true ∧
+              e = retainedEntry s now p ∧ p.topic = q.topic) := by
+  obtain ⟨steps, hb, ht⟩ := WpA.reachable_run h
+  obtain ⟨_, st, hst, s, hs, e1, e2, e3, _, e5, _⟩ := retention_of_run h steps hb pre post topic m limit hcfg hlast
+  refine ⟨steps, hb, st, hst, s, hs, e2, e3, ?_, ?_⟩
+  · rw [← e1]; exact findId_of_mem h.inv.1.binv.ids_nodup hs
+  · intro q hq e he
+    rw [e5] at he
+    exact C20_topic_filter_scan { q with subTopic := s.topic } s steps limit rfl hq
+      (fun sess now p hm => WpA.Trace.pubOk ht sess now p hm "topic" (Or.inl rfl)) e he
 
 /-- The four publication-bound clauses for the stores of reachable realms: the `Nodup` hypothesis
     is discharged by `C20_store_pubs_nodup`. -/
